@@ -130,6 +130,33 @@ pub fn run(ctx: &mut Ctx) {
                     "settings": {"dialect": dname, "linters": linters}})).unwrap();
             }
         }
+        "dictwords" => {
+            // material for user dictionaries: lower-case forms of words the curated dictionary lists only
+            // capitalised (a user may add `markdown` although `Markdown` is listed), and listed lower-case words
+            let mut lower_of_capitalised = Vec::new();
+            let mut listed = Vec::new();
+            let all: Vec<String> = fst.words_iter().map(|w| w.iter().collect::<String>()).collect();
+            let mut tries = 0;
+            while (lower_of_capitalised.len() < n || listed.len() < n) && tries < 400_000 {
+                tries += 1;
+                let w = rng.pick(&all).clone();
+                if w.len() < 4 || w.len() > 12 || !w.chars().all(|c| c.is_ascii_alphabetic()) {
+                    continue;
+                }
+                let lower = w.to_lowercase();
+                if w != lower && w[1..] == lower[1..] {
+                    if !fst.contains_word_str(&lower) || !fst.contains_exact_word_str(&lower) {
+                        if lower_of_capitalised.len() < n && !fst.contains_exact_word_str(&lower) {
+                            lower_of_capitalised.push(lower);
+                        }
+                    }
+                } else if w == lower && listed.len() < n && fst.get_word_metadata_str(&w).is_some_and(|m| m.dialect.is_none()) {
+                    // valid in every dialect
+                    listed.push(w);
+                }
+            }
+            writeln!(f, "{}", json!({"fam": "dictwords", "lower_of_capitalised": lower_of_capitalised, "listed": listed})).unwrap();
+        }
         "hist" => {
             // histories for one long-lived document: fixed settings, texts assembled from a small pool of
             // clauses so that the server's per-document linter answers most chunks from its caches
@@ -148,11 +175,42 @@ pub fn run(ctx: &mut Ctx) {
                 for _ in 0..r.range(0, 6) {
                     linters.insert(r.pick(&keys).clone(), json!(r.chance(1, 2)));
                 }
-                let cfg: harper_core::linting::LintGroupConfig = serde_json::from_value(serde_json::Value::Object(linters.clone())).expect("config");
+                let mut cfg: harper_core::linting::LintGroupConfig = serde_json::from_value(serde_json::Value::Object(linters.clone())).expect("config");
                 let pool: Vec<String> = (0..r.range(4, 9)).map(|_| if r.chance(1, 5) { gen_clause(&mut r, &corpus, 5, 3).replace('\n', " ") } else { r.pick(&corpus.sentences).replace('\n', " ") }).collect();
                 let parser = fe.wrapped(Wrap::None, &fst);
                 let mut steps = Vec::new();
+                let initial = json!({"dialect": dname, "linters": linters.clone()});
+                let (mut dialect, mut dname) = (dialect, dname);
+                let mut last_text: Option<String> = None;
+                let lint_under = |text: &str, dialect: Dialect, cfg: &harper_core::linting::LintGroupConfig| {
+                    guarded(|| {
+                        let doc = Document::new(text, &parser, &merged);
+                        let mut lg = LintGroup::new_curated(merged.clone(), dialect).with_lint_config(cfg.clone());
+                        lg.config.fill_with_curated();
+                        lg.lint(&doc)
+                    })
+                };
                 for _ in 0..r.range(10, 30) {
+                    // now and then the settings change while the document stays open (the client saves the buffer first)
+                    if let (Some(t), true) = (&last_text, r.chance(1, 5)) {
+                        if r.chance(2, 3) {
+                            (dialect, dname) = *r.pick(&dialects);
+                        }
+                        if r.chance(1, 2) {
+                            linters.insert(r.pick(&keys).clone(), json!(r.chance(1, 2)));
+                            if r.chance(1, 3) {
+                                let k = linters.keys().next().cloned();
+                                if let Some(k) = k {
+                                    linters.remove(&k);
+                                }
+                            }
+                        }
+                        cfg = serde_json::from_value(serde_json::Value::Object(linters.clone())).expect("config");
+                        if let Ok(lints) = lint_under(t, dialect, &cfg) {
+                            let expected: Vec<_> = lints.iter().map(|l| json!([l.span.start, l.span.end, l.message])).collect();
+                            steps.push(json!({"op": "config", "settings": {"dialect": dname, "linters": linters}, "text": t, "expected": expected}));
+                        }
+                    }
                     let mut text = String::new();
                     for k in 0..r.range(1, 5) {
                         if k > 0 {
@@ -160,17 +218,15 @@ pub fn run(ctx: &mut Ctx) {
                         }
                         text.push_str(r.pick(&pool).as_str());
                     }
-                    let res = guarded(|| {
-                        let doc = Document::new(&text, &parser, &merged);
-                        let mut lg = LintGroup::new_curated(merged.clone(), dialect).with_lint_config(cfg.clone());
-                        lg.config.fill_with_curated();
-                        lg.lint(&doc)
-                    });
-                    let Ok(lints) = res else { continue };
+                    if r.chance(1, 6) {
+                        text.push_str(r.pick_str(&[" The colour of the neighbour's harbour.", " The color of the neighbor's harbor.", " We realise the centre is grey.", " We realize the center is gray."]));
+                    }
+                    let Ok(lints) = lint_under(&text, dialect, &cfg) else { continue };
                     let expected: Vec<_> = lints.iter().map(|l| json!([l.span.start, l.span.end, l.message])).collect();
-                    steps.push(json!({"text": text, "expected": expected}));
+                    steps.push(json!({"op": "text", "text": text, "expected": expected}));
+                    last_text = Some(text);
                 }
-                writeln!(f, "{}", json!({"fam": "hist", "fe": fe.name(), "lang": lang_id(fe, &mut r), "settings": {"dialect": dname, "linters": linters}, "steps": steps})).unwrap();
+                writeln!(f, "{}", json!({"fam": "hist", "fe": fe.name(), "lang": lang_id(fe, &mut r), "settings": initial, "steps": steps})).unwrap();
             }
         }
         _ => {
